@@ -789,6 +789,11 @@ static cJSON_bool parse_string(cJSON * const item, parse_buffer * const input_bu
         size_t skipped_bytes = 0;
         while (((size_t)(input_end - input_buffer->content) < input_buffer->length) && (*input_end != '\"'))
         {
+            if (input_end[0] == '\0')
+            {
+                /* a 0 byte would end the decoded C string early */
+                goto fail;
+            }
             /* is escape sequence */
             if (input_end[0] == '\\')
             {
